@@ -1736,6 +1736,8 @@ def eval_case(case, table_by_line, record=True):
             j = per.get(a['stmt'], 0)
             per[a['stmt']] = j + 1
             row = table_by_line.get((a['file'], a['line']))
+            if row is None and getattr(table_by_line, 'by_func', None) and (a['file'], a['func']) in table_by_line.by_func:
+                row = {'kind': table_by_line.by_func[(a['file'], a['func'])]}
             acts.append({'aid': (a['stmt'] if a['stmt'] is not None else 99) * 8 + j, 'stmt': a['stmt'], 'j': j,
                          'site': '%s.py:%d %s' % (a['file'], a['line'], a['func']),
                          'kind': row['kind'] if row else 'unknown', 'order': a['order'],
@@ -1982,7 +1984,7 @@ def check_correspondence(case, ev, reply, intern):
             continue
         for a in r['actions']:
             if a['kind'] == 'unknown':
-                mm.append('action call site %s is not in the generated table' % a['site'])
+                mm.append('action call site %s was not reached by the directive probe' % a['site'])
             elif ph.get(a['aid']) != a['order']:
                 mm.append('phase: %s (%s) registered with order=%r, table says %r' % (a['site'], a['kind'], a['order'], ph.get(a['aid'])))
         mv = reply['variants'][vi]
@@ -2043,16 +2045,31 @@ def _akind(acts, aid):
 _TABLE = {}
 
 
+class SiteTable(dict):
+    """(file stem, line of the `self.action(…)` call) -> probed row; an executed action whose exact line the probe did
+    not hit is still recognised when all probed actions of that (file, function) are of one kind"""
+    by_func = None
+
+    def get(self, key, default=None):
+        if key in self:
+            return dict.get(self, key)
+        return default
+
+
 def table_by_line(src):
+    """call sites of the running code, from the directive PROBE of extract/c08.py (no AST involved)"""
     if src not in _TABLE:
         sys.path.insert(0, os.path.join(os.path.dirname(os.path.dirname(os.path.abspath(__file__))), 'extract'))
         import importlib
         ext = importlib.import_module('c08')
-        rows, _, _ = ext.table(src)
-        t = {}
-        for r in rows:
-            for ln in range(r['line'], r['end_line'] + 1):
-                t[(r['file'], ln)] = r
+        pr = ext.probe(src)
+        t = SiteTable()
+        for k, r in pr['sites'].items():
+            t[k] = r
+        byf = {}
+        for r in pr['sites'].values():
+            byf.setdefault((r['file'], r['func']), set()).add(r['kind'])
+        t.by_func = {k: list(v)[0] for k, v in byf.items() if len(v) == 1}
         _TABLE[src] = t
     return _TABLE[src]
 
